@@ -156,8 +156,13 @@ class Report:
             "level": self.level, "coverage": cov, "assumptions": self.assumptions,
             "wall_s": round(wall, 2), "violations": len(self.violations),
         }
+        replay_run = bool(os.environ.get("VERIF_REPLAY_RUN"))
         os.makedirs(os.path.join(VERIF, "evidence"), exist_ok=True)
         path = os.path.join(VERIF, "evidence", self.prop + ".json")
+        if replay_run:
+            path = os.path.join(VERIF, "replays", self.prop + ".last-replay.json")
+            os.makedirs(os.path.dirname(path), exist_ok=True)
+            min_nontrivial = 0
         tmp = path + ".tmp%d" % os.getpid()
         with open(tmp, "w") as f:
             json.dump(ev, f, indent=1, sort_keys=True)
@@ -177,7 +182,7 @@ class Report:
             for h in self.harness_errors[:10]:
                 print("HARNESS-ERROR: %s" % h)
             return 2
-        if self.evaluations == 0 or len(self.nontrivial) < min_nontrivial:
+        if (self.evaluations == 0 and not replay_run) or len(self.nontrivial) < min_nontrivial:
             print("HARNESS-ERROR: run observed too little (evaluations=%d nontrivial=%d)" %
                   (self.evaluations, len(self.nontrivial)))
             return 2
